@@ -19,5 +19,5 @@ cd /verif
 out=$(PPCI_REPO="$WT" ./vcheck "$P" --tier "$TIER" 2>&1); rc=$?
 echo "$out" | tail -4
 # Gen/* tables were regenerated from the patched tree: regenerate them from /repo again
-/venv/bin/python harness/regen_all.py >/dev/null 2>&1
+/venv/bin/python harness/regen_all.py "$P" >/dev/null 2>&1
 echo "RESULT $P demo_without=$d0 demo_with=$d1 tests='$tests' vcheck_rc=$rc"
